@@ -202,6 +202,24 @@ func (in *inst) dynamicCall(n *vnode, st *State, f Val, sig *types.Signature, ar
 }
 
 func (in *inst) static(n *vnode, st *State, f *ssa.Function, args []Val, bindings []Val, pos token.Pos) Val {
+	r := in.static1(n, st, f, args, bindings, pos)
+	// ghost record of the results of the latest call of f on this path (staticresult(f, i))
+	if st.ghost == nil {
+		st.ghost = map[string]Val{}
+	}
+	if r.K == KTuple {
+		for i, c := range r.Fs {
+			st.ghost[fmt.Sprintf("res:%s.%d", f.Name(), i)] = c
+			delete(st.ghost, fmt.Sprintf("has:res:%s.%d", f.Name(), i))
+		}
+	} else if f.Signature.Results().Len() == 1 {
+		st.ghost[fmt.Sprintf("res:%s.0", f.Name())] = r
+		delete(st.ghost, fmt.Sprintf("has:res:%s.0", f.Name()))
+	}
+	return r
+}
+
+func (in *inst) static1(n *vnode, st *State, f *ssa.Function, args []Val, bindings []Val, pos token.Pos) Val {
 	fv := in.fv
 	sig := f.Signature
 	if st.ghost == nil {
@@ -1349,6 +1367,18 @@ func (in *inst) baseEnv(st *State) *cenv {
 		in.names = map[string][]ssa.Value{}
 		for _, b := range in.fn.Blocks {
 			for _, ins := range b.Instrs {
+				if a, ok := ins.(*ssa.Alloc); ok && a.Heap && a.Comment != "" && token.IsIdentifier(a.Comment) {
+					// an escaping local (captured by a closure): the source name denotes the current content of
+					// its cell, which callees may have changed; a name with two such cells is left unbound
+					if in.addrNames == nil {
+						in.addrNames = map[string]ssa.Value{}
+					}
+					if _, dup := in.addrNames[a.Comment]; dup {
+						in.addrNames[a.Comment] = nil
+					} else {
+						in.addrNames[a.Comment] = a
+					}
+				}
 				if d, ok := ins.(*ssa.DebugRef); ok && !d.IsAddr {
 					if id, ok := d.Expr.(*ast.Ident); ok {
 						dupl := false
@@ -1421,6 +1451,21 @@ func (in *inst) baseEnv(st *State) *cenv {
 				ce.vars[name] = v
 			} else if c, ok := cand[0].(*ssa.Const); ok {
 				ce.vars[name] = fv.constVal(c)
+			}
+		}
+	}
+	for name, cell := range in.addrNames {
+		if cell == nil {
+			delete(ce.vars, name)
+			continue
+		}
+		if cv, ok := in.nodeVal(cell); ok && cv.K == KLoc {
+			if pt, isP := types.Unalias(cell.Type()).Underlying().(*types.Pointer); isP {
+				if k, _, _ := kindOf(pt.Elem()); k != KStruct && k != KTuple {
+					fv.quiet++
+					ce.vars[name] = fv.load(st, cv.T, pt.Elem())
+					fv.quiet--
+				}
 			}
 		}
 	}
@@ -1632,6 +1677,17 @@ func (in *inst) invStep(n *vnode, edges []*vedge, conds []string) {
 		pv[phi] = fv.mergeVals(conds, vs)
 	}
 	ce := in.headerEnv(n, l, pv, st)
+	if n.from != nil {
+		// names bound inside the body (range key / value, locals) that dominate this back edge
+		in.at, in.atNode = n.from, n
+		be := in.baseEnv(st)
+		in.at, in.atNode = nil, nil
+		for k, v := range be.vars {
+			if _, ok := ce.vars[k]; !ok {
+				ce.vars[k] = v
+			}
+		}
+	}
 	ce.it0 = snap.st
 	ce.it0vars = snap.vars
 	ce.pre = snap.pre
